@@ -3,7 +3,7 @@ import itertools
 
 ID = "C07"
 HARNESS_PKG = "h_c07"
-COQ_IMPORTS = "From PV Require Import Model.Heights Model.Cursor Oracle.C06 Oracle.C07.\nOpen Scope N_scope."
+COQ_IMPORTS = "From PV Require Import Model.Heights Model.Cursor Model.AckConc Oracle.C06 Oracle.C07.\nOpen Scope N_scope."
 COQ_SHARD = 400
 TECHNIQUE = ("Coq proof (cursor state = pointwise maximum of all advances, permutation invariance, monotonicity of every stored cursor "
              "under any history of acks, rejection of foreign-topic acks) + differential correspondence of the Gallina model with the real "
@@ -84,6 +84,44 @@ def _rand_node(rng):
     return {"kind": "node", "counts": counts, "ops": ops}
 
 
+CONC_CFGS = ["cjm", "cjf", "csm", "csf", "mjm", "mjf", "msm", "msf"]   # runtime, join_all/spawn, memory/file
+
+
+def _interleave(rng, k, per=5, extra=0.3):
+    """A label list in which every call gets at least `per` labels (enough to return when it is
+    never queued), randomly interleaved, plus some labels that hit queued / returned calls."""
+    labels = [i for i in range(k) for _ in range(per)]
+    labels += [rng.randrange(k) for _ in range(int(len(labels) * extra))]
+    rng.shuffle(labels)
+    return labels
+
+
+def _rand_conc(rng, cfg, free=False):
+    k = rng.randint(2, 8 if free else 5)
+    t = rng.randrange(2)
+    nauth = rng.randint(1, 3)
+
+    def hdr():
+        lt = t if rng.random() < 0.85 else 1 - t
+        return [rng.randrange(nauth), lt, rng.randrange(0, 8)]
+    init = [hdr() for _ in range(rng.choice([0, 0, 1, 2]))]
+    acks = [hdr() for _ in range(k)]
+    if rng.random() < 0.5:
+        # one log, descending heights: a stale overwrite moves the cursor backwards
+        top = rng.randrange(k, k + 4)
+        acks = [[0, t, top - i] for i in range(k)]
+    return {"kind": "conc", "cfg": cfg, "topic": t, "init": init, "acks": acks,
+            "sched": None if free else _interleave(rng, k)}
+
+
+def _two_call_schedules():
+    """All interleavings of two calls with five labels each (252)."""
+    out = []
+    for pos in itertools.combinations(range(10), 5):
+        out.append([0 if i in pos else 1 for i in range(10)])
+    return out
+
+
 def _as_ack(case):
     """A node case is an ack case: two default-named topic streams, the node's key is author 0."""
     if case["kind"] != "node":
@@ -124,6 +162,17 @@ def gen(tier, rng):
             yield {"kind": "ack", "insts": insts, "ops": [list(o) for o in ops]}
     for _ in range(300 if quick else 3000):
         yield _rand_ack(rng, 14 if quick else 40)
+    # conc: several acks in flight at once through ONE Acked, schedule replayed step by step
+    two = _two_call_schedules()
+    pick = rng.sample(two, 24) if quick else two
+    for n, sch in enumerate(pick):
+        # two authors / one author with descending heights, alternating
+        acks = [[0, 0, 5], [1, 0, 3]] if n % 2 else [[0, 0, 5], [0, 0, 3]]
+        yield {"kind": "conc", "cfg": CONC_CFGS[n % 8], "topic": 0, "init": [], "acks": acks, "sched": sch}
+    for n in range(64 if quick else 800):
+        yield _rand_conc(rng, CONC_CFGS[n % 8])
+    for n in range(32 if quick else 400):
+        yield _rand_conc(rng, CONC_CFGS[n % 8], free=True)
 
 
 # ---------------------------------------------------------------- rendering
@@ -134,6 +183,10 @@ def _name_idx(inst):
 
 
 def harness_line(case):
+    if case["kind"] == "conc":
+        tr = lambda xs: ", ".join("%d %d %d" % tuple(x) for x in xs)
+        sch = "free" if case["sched"] is None else " ".join(map(str, case["sched"]))
+        return "conc %s %d ; %s ; %s ; %s" % (case["cfg"], case["topic"], tr(case["init"]), tr(case["acks"]), sch)
     if case["kind"] == "node":
         return "node %d %d ; %s" % (case["counts"][0], case["counts"][1], " ; ".join("%d %d %d" % tuple(o) for o in case["ops"]))
     if case["kind"] == "adv":
@@ -161,11 +214,47 @@ def _coq_ops(ops):
     return "[" + ";".join("(%d%%nat,{|hauthor:=%d;hlog:=%d;hseq:=%d|})" % (i, a, t, h) for i, a, t, h in ops) + "]"
 
 
+def _coq_hdrs(hs):
+    return "[" + ";".join("{|hauthor:=%d;hlog:=%d;hseq:=%d|}" % (a, t, h) for a, t, h in hs) + "]"
+
+
+def _coq_conc_k(case):
+    return "{|aname:=%d;atopic:=%d|}" % (1000 + case["topic"], case["topic"])
+
+
+def _parse_conc(impl):
+    """-> (init, [steps], [results], final) or None."""
+    parts = impl.split(" | ")
+    if len(parts) != 3:
+        return None
+    steps = [p.strip() for p in parts[0].split(" ; ")]
+
+    def st(tok):
+        if not (tok.startswith("[") and tok.endswith("]")):
+            raise ValueError(tok)
+        return _parse_state(tok[1:-1])
+    try:
+        init = st(steps[0])
+        rest = []
+        for p in steps[1:]:
+            letters, _, cur = p.partition(" ")
+            if not letters or any(c not in "IWHRBNKX" for c in letters):
+                return None
+            rest.append((letters, st(cur)))
+        fin = st(parts[2].strip())
+    except ValueError:
+        return None
+    return init, rest, parts[1].split(), fin
+
+
 def _init_sorted(case):
     return sorted([a, sorted(inner)] for a, inner in case["init"] if inner)
 
 
 def coq_model(case):
+    if case["kind"] == "conc":
+        sch = "[" + ";".join(map(str, case["sched"] or [])) + "]%nat"
+        return "model_line_conc %s %s %s %s" % (_coq_conc_k(case), _coq_hdrs(case["init"]), _coq_hdrs(case["acks"]), sch)
     case = _as_ack(case)
     if case["kind"] == "adv":
         return "model_line_adv %s %s" % (_coq_heights(_init_sorted(case)), _coq_xs(case["xs"]))
@@ -211,6 +300,15 @@ def _parse_ack(impl):
 def coq_oracle(case, impl):
     if impl.startswith("PANIC") or "RAWDIFF" in impl or "?" in impl:
         return "false"
+    if case["kind"] == "conc":
+        p = _parse_conc(impl)
+        if p is None:
+            return "false"
+        init, steps, res, fin = p
+        rmap = {"ok": "Some AckOk", "InvalidTopic": "Some AckInvalidTopic"}
+        return "check_conc %s %s %s [%s] [%s] %s" % (
+            _coq_conc_k(case), _coq_hdrs(case["acks"]), _coq_heights(init),
+            ";".join(_coq_heights(c) for _, c in steps), ";".join(rmap.get(r, "None") for r in res), _coq_heights(fin))
     case = _as_ack(case)
     if case["kind"] == "adv":
         if "|" not in impl:
@@ -229,6 +327,12 @@ def coq_oracle(case, impl):
 def nontrivial(case, impl):
     if impl.startswith("PANIC"):
         return False
+    if case["kind"] == "conc":
+        p = _parse_conc(impl)
+        if p is None:
+            return False
+        # a call was really queued on the semaphore behind another one / several calls ran freely
+        return any("W" in letters for letters, _ in p[1]) if case["sched"] is not None else len(case["acks"]) >= 2
     if case["kind"] == "adv":
         if "|" not in impl:
             return False
@@ -238,6 +342,29 @@ def nontrivial(case, impl):
 
 
 def shrink(case):
+    if case["kind"] == "conc":
+        acks, sch = case["acks"], case["sched"]
+        for i in range(len(acks)):
+            if len(acks) > 1:
+                c = dict(case)
+                c["acks"] = acks[:i] + acks[i + 1:]
+                if sch is not None:
+                    c["sched"] = [x - (1 if x > i else 0) for x in sch if x != i]
+                yield c
+        if sch is not None:
+            for i in range(len(sch)):
+                c = dict(case)
+                c["sched"] = sch[:i] + sch[i + 1:]
+                yield c
+        if case["init"]:
+            c = dict(case)
+            c["init"] = []
+            yield c
+        if case["cfg"] != "cjm":
+            c = dict(case)
+            c["cfg"] = "cjm"
+            yield c
+        return
     if case["kind"] == "node":
         ops = case["ops"]
         for i in range(len(ops)):
@@ -274,7 +401,17 @@ def distribution(cases, impl):
                     res[r] += 1
                 elif r:
                     res["other"] += 1
-    return {"adv_cases": len(adv), "ack_cases": len(ack), "node_cases": sum(1 for c in cases if c["kind"] == "node"),
+    conc = [(i, c) for i, c in enumerate(cases) if c["kind"] == "conc"]
+    cfgs, queued = {}, 0
+    for i, c in conc:
+        key = c["cfg"] + ("-free" if c["sched"] is None else "")
+        cfgs[key] = cfgs.get(key, 0) + 1
+        p = _parse_conc(impl.get(i, ""))
+        if p and any("W" in letters for letters, _ in p[1]):
+            queued += 1
+    return {"conc_cases": len(conc), "conc_configs": cfgs, "conc_with_queued_call": queued,
+            "max_conc_calls": max([len(c["acks"]) for _, c in conc] or [0]),
+            "adv_cases": len(adv), "ack_cases": len(ack), "node_cases": sum(1 for c in cases if c["kind"] == "node"),
             "max_adv_len": max([len(c["xs"]) for c in adv] or [0]), "max_ack_len": max([len(c["ops"]) for c in ack] or [0]),
             "ack_results": res,
             "shared_name_configs": sum(1 for c in ack if c["kind"] == "ack" and len({_name_idx(i) for i in c["insts"]}) < len(c["insts"])),
